@@ -40,9 +40,9 @@ MirrorOK(cc, A, B) ==
   /\ \A i \in 1..Len(A) :
        /\ A[i].k = B[i].k /\ A[i].id = B[i].id /\ A[i].tr = B[i].tr
        /\ A[i].k = "new" =>
+            \* (C17 speaks of sides, sizes and steps; the limit PRICES of a mirrored pair are not compared: they are clamped to
+            \*  the price range, 0 below and 2^32 - 1 above, which is not symmetric about the mirror level)
             /\ A[i].side # B[i].side /\ A[i].vol = B[i].vol /\ A[i].mkt = B[i].mkt
-            /\ ~A[i].mkt => (BigSmall(A[i].price) /\ BigSmall(B[i].price)
-                              /\ BigVal(A[i].price) + BigVal(B[i].price) = 2 * cc.cfg.level * cc.tick)
 
 Rel(cc, e, sgn) ==
   CASE cc.kind = "random"   -> RandomRel(cc, e)
